@@ -49,6 +49,11 @@ public:
         advance_to_next_item_of_right_type();
         return *this;
     }
+    ItemIterator operator++(int) noexcept {
+        ItemIterator tmp{*this};
+        m_data = reinterpret_cast<TMember*>(m_data)->next();  // P1: steps but does not filter like operator++()
+        return tmp;
+    }
     bool operator!=(const ItemIterator& rhs) const noexcept { return m_data != rhs.m_data; }
     bool operator==(const ItemIterator& rhs) const noexcept { return m_data == rhs.m_data; }
     TMember& operator*() const noexcept { return *reinterpret_cast<TMember*>(m_data); }
